@@ -13,12 +13,22 @@ CLAIMED = {
    text="For each generated WAL (v2 written by the real code, v1 segments written with the v1 codec) every subset of differing 4KiB pages of the unsynced tail (<=8 pages; sampled above) is persisted and reopened, and a fixed table of header-field values plus zero/random/bit-flip damage is applied to selected committed and uncommitted records and index files; each reopened copy is read back entry by entry and compared bit-for-bit with what was appended. Panics are caught per reopen, runaway recovery by a watchdog with heap-growth evidence.",
    note="Page granularity 4KiB is assumed; the commit-offset provider is truthful (component level); file truncation is not generated (the property lists torn writes, zeroed and random bytes).",
    technique="fault injection (page-subset crash images, header/payload/index corruption) + bit-exact read-back oracle"),
+ "C18": dict(engine="coordpure", level="exploration",
+   text="GenerateShards is checked for every shard count up to 4096 (quick) / 16384 (thorough) and sampled far above; ApplyClusterChanges is folded over seeded config-change sequences with the real ensemble selector as supplier and after every step each namespace must partition [0,2^32-1] with never-reused ids. (Coordinator-published assignments and client routing are added by the coord/client engines when built.)",
+   note="Namespaces with a shard in Deleting state are excluded on purpose (legitimate transient). Shard counts are sampled above the exhaustive bound.",
+   technique="invariant checks over enumerated shard counts and seeded config-change sequences"),
+ "C19": dict(engine="coordpure", level="exploration",
+   text="Seeded clusters/labels/policies/RF/placements are fed to the real ensemble selector and to a real load balancer over real status/config resources; every returned ensemble and every proposed swap is checked against the property's predicate (RF distinct members of the cluster, strict anti-affinity, target not in the ensemble, one member replaced). Panics are verdicts.",
+   note="For a strict rule listing several labels only the reading common to both plausible semantics is enforced (two members agreeing on all labels of the rule); members that left the cluster config have no labels and are not compared.",
+   technique="predicate oracle over seeded inputs (selectors) and over the balancer's action stream"),
 }
 
 NOT_APPLICABLE = {}
 DEFAULT_NA = "check not built yet in this session (work in progress)"
 
 ENGINES = [
+ {"name": "coordpure", "path": "harness/engines/coordpure", "serves_properties": ["C18", "C19"],
+  "kind_free_text": "coordinator decision functions (shard ranges, cluster-change folding, ensemble selection, balancer proposals)"},
  {"name": "walmodel", "path": "harness/engines/walmodel", "serves_properties": ["C09", "C10"],
   "kind_free_text": "real WAL vs list model; damaged-copy recovery"},
 ]
